@@ -28,8 +28,8 @@ LEX_FUNCS = ["norminette.lexer.lexer.Lexer.get_next_token", "Lexer.peek", "Lexer
 
 def lexer_step(prop, tier, seed, t0, what):
     from harness import lexer_step as H
-    N = 5 if tier == "quick" else 7
-    budget = 150 if tier == "quick" else 2400
+    N = 6 if tier == "quick" else 7
+    budget = 200 if tier == "quick" else 2400
     chunks = H.chunks(tier, N)
     res = R.run_pool(H.HNAME, chunks, budget, seed, tier, extra=dict(props=[prop], sample_rate=0.05 if tier == "quick" else 0.02))
     agg = R.merge(res)
@@ -142,9 +142,9 @@ def report_multi(prop, per_harness, agg, tier, seed, t0, bounds, functions, assu
 @register("C11")
 def c11(tier, seed, t0):
     from harness import literals as H
-    N = int(os.environ.get("VERIF_N", 0)) or (7 if tier == "quick" else 9)
-    budget = 150 if tier == "quick" else 2400
-    res = R.run_pool(H.HNAME, H.chunks(tier, N), budget, seed, tier, extra=dict(sample_rate=0.1 if tier == "quick" else 0.03))
+    N = int(os.environ.get("VERIF_N", 0)) or (8 if tier == "quick" else 10)
+    budget = 200 if tier == "quick" else 2400
+    res = R.run_pool(H.HNAME, H.chunks(tier, N), budget, seed, tier, extra=dict(sample_rate=0.05 if tier == "quick" else 0.02))
     agg = R.merge(res)
     bounds = dict(literal_chars=N, numeric_alphabet=H.NUM_ALPHA, quoted_alphabet=H.QUO_ALPHA,
                   delimiters=dict(numeric=H.NUM_DELIMS, quoted=H.QUO_DELIMS), start_position="(1,1) (positions are C09's subject)",
@@ -345,7 +345,7 @@ def c14(tier, seed, t0):
     res = R.run_pool(H.HNAME, H.chunks(tier), 150 if tier == "quick" else 1500, seed, tier,
                      extra=dict(sample_rate=0.3 if tier == "quick" else 0.1, chunk_time=60 if tier == "quick" else 300))
     agg = R.merge(res)
-    bounds = dict(base_name="length 1..4 (quick) / 1..6 (thorough) over [a-z0-9_.], first character [a-z_], every character symbolic",
+    bounds = dict(base_name="length 1..5 (quick) / 1..7 (thorough) over [a-z0-9_.], first character [a-z_], every character symbolic",
                   shapes=H.SHAPES, expected=H.EXPECT, file_types=[".h", ".c (no HEADER_PROT_* at all)"],
                   outside="names starting with a digit or dot (their guard is not a C identifier); names longer than the bound; two mutations at once")
     return R.report("C14", H.HNAME, tier, seed, agg, t0, bounds, functions=PIPE_FUNCS + [
